@@ -449,7 +449,7 @@ def _package_facts(ix):
                 tg = n.targets if isinstance(n, (ast.Assign, ast.Delete)) else [n.target]
                 for t in tg:
                     for tt in ast.walk(t):
-                        if isinstance(tt, ast.Subscript):
+                        if isinstance(tt, ast.Subscript) and isinstance(tt.ctx, (ast.Store, ast.Del)):
                             r = tt.value
                             if isinstance(r, ast.Name):
                                 mutated.add(r.id)
